@@ -198,6 +198,7 @@ pub fn optimize(code: Vec<UnOptCode>, level: u8) -> Result<(OptState, Vec<OptCod
             chk.push(now);
             if un_opt_code.get_type() == 5 {
                 now = un_opt_code.get_dot_count();
+                chk.push(now);
             }
         }
 
